@@ -4,7 +4,7 @@ C12 — round 5: (1) what is handed to the callbacks when callbacks stay inside 
 wheel: for EVERY configuration (limit absent / ≤ 0 / positive, any LRU state, any data) the requests of
 SetWithExpire / Set / Take / Del reach the wheel in program order and end with the request that decides the key.
 -/
-import GoZero.C12.ProofsSched
+import GoZero.C12.ProofsSchedW
 namespace GoZero.C12
 
 /-! ### (1) one goroutine per tick, each walking a slice of its own -/
@@ -126,5 +126,38 @@ example : ((([.put 0 5, .put 1 6, .get 0, .tick] : List COp).foldl cacheStep
     (([.put 0 5, .put 1 6, .tick, .tick] : List COp).foldl cacheStep
       (Spec.Api.init 1000000000, CacheL.init 1 2000000000)).2.data)
     = ([(1, 6)], [⟨1, 6, 1⟩], []) := by decide
+
+/-- [the same, on the WHEEL: every wheel size, every limit, every history]  the keys in the cache's `data` are
+exactly the keys with a live entry in the wheel, and what the cache over the wheel does is what the cache over the
+timer table does (same data, same LRU order after every operation). -/
+theorem cache_entry_iff_live_timer_on_the_wheel (n : Nat) (hn : 0 < n) (limit expire : Int) (interval : Nat)
+    (hexp : 0 < expire) (ops : List COp) (hpos : ∀ k v e, COp.set k v e ∈ ops → 0 < e) :
+    (ops.foldl cacheStepW (Api.init interval n, CacheL.init limit expire)).1.stopped = false
+    ∧ (∀ j, j ∈ (ops.foldl cacheStepW (Api.init interval n, CacheL.init limit expire)).2.data.map (·.1)
+        ↔ hasKey (ops.foldl cacheStepW (Api.init interval n, CacheL.init limit expire)).1.inner j = true)
+    ∧ (ops.foldl cacheStepW (Api.init interval n, CacheL.init limit expire)).2
+        = (ops.foldl cacheStep (Spec.Api.init interval, CacheL.init limit expire)).2 := by
+  have hr := cacheRunW_refines ops (Api.init interval n, CacheL.init limit expire) (init_wf n hn)
+  have h0 : absApi (Api.init interval n) = Spec.Api.init interval := by
+    simp [absApi, Api.init, Spec.Api.init, abs, TW.init]
+  rw [h0] at hr
+  have hs := cache_entry_iff_pending_timer limit expire interval hexp ops hpos
+  have e1 := congrArg Prod.fst hr.2
+  have e2 := congrArg Prod.snd hr.2
+  simp only at e1 e2
+  refine ⟨?_, ?_, e2⟩
+  · have := hs.1; rw [← e1] at this; exact this
+  · intro j
+    have := hs.2 j
+    rw [← e1, ← e2] at this
+    simp only [absApi, hasKey_abs] at this
+    exact this
+
+
+example : ((([.put 0 5, .put 1 6, .get 0, .tick] : List COp).foldl cacheStepW
+      (Api.init 1000000000 300, CacheL.init 1 2000000000)).2.data,
+    (([.put 0 5, .put 1 6, .get 0, .tick] : List COp).foldl cacheStepW
+      (Api.init 1000000000 300, CacheL.init 1 2000000000)).1.inner.entries.map (·.key))
+    = ([(1, 6)], [1]) := by decide
 
 end GoZero.C12
